@@ -56,7 +56,7 @@ def _box_into_vec(m, args, ci):
         raise Unsupported('box_assume_init_into_vec_unsafe on %r' % (v,))
     return Seq(v.items, 'vec')
 
-@I.rx(r'^(std::slice::)?<impl \[T\]>::into_vec$')
+@I.rx(r'^(std::slice::)?<impl \[.*\]>::into_vec$')
 def _into_vec(m, args, ci):
     v = box_ref(args[0]).get() if isinstance(args[0], Adt) else args[0]
     return Seq(elems_of(v), 'vec')
@@ -73,12 +73,12 @@ def _vec_pop(m, args, ci):
         return none()
     return some(s.items.pop())
 
-@I.rx(r'^(std::vec::)?Vec::(len)$|^(core::slice::|std::slice::)?<impl \[T\]>::len$')
+@I.rx(r'^(std::vec::)?Vec::(len)$|^(core::slice::|std::slice::)?<impl \[.*\]>::len$')
 def _vec_len(m, args, ci):
     s, a, b = seq_of(args[0])
     return b - a
 
-@I.rx(r'^(std::vec::)?Vec::is_empty$|^(core::slice::|std::slice::)?<impl \[T\]>::is_empty$')
+@I.rx(r'^(std::vec::)?Vec::is_empty$|^(core::slice::|std::slice::)?<impl \[.*\]>::is_empty$')
 def _vec_is_empty(m, args, ci):
     s, a, b = seq_of(args[0])
     return b - a == 0
@@ -148,22 +148,22 @@ def _vec_extend_from_slice(m, args, ci):
 def _vec_reserve(m, args, ci):
     return unit()
 
-@I.rx(r'^(std::vec::)?Vec::(as_slice|as_mut_slice)$|^<(std::vec::)?Vec as (Deref|DerefMut|AsRef<\[.*\]>|AsRef|Borrow)>::(deref|deref_mut|as_ref|borrow)$')
+@I.rx(r'^(std::vec::)?Vec::(as_slice|as_mut_slice)$|^<(std::vec::)?Vec as (Deref|DerefMut|AsRef|Borrow)>::(deref|deref_mut|as_ref|borrow)$')
 def _vec_as_slice(m, args, ci):
     s, a, b = seq_of(args[0])
     return Slice(s, a, b)
 
-@I.rx(r'^(std::vec::)?Vec::first$|^(core::slice::|std::slice::)?<impl \[T\]>::first$')
+@I.rx(r'^(std::vec::)?Vec::first$|^(core::slice::|std::slice::)?<impl \[.*\]>::first$')
 def _first(m, args, ci):
     s, a, b = seq_of(args[0])
     return some(Ref(s, a)) if b > a else none()
 
-@I.rx(r'^(std::vec::)?Vec::last$|^(core::slice::|std::slice::)?<impl \[T\]>::last$')
+@I.rx(r'^(std::vec::)?Vec::last$|^(core::slice::|std::slice::)?<impl \[.*\]>::last$')
 def _last(m, args, ci):
     s, a, b = seq_of(args[0])
     return some(Ref(s, b - 1)) if b > a else none()
 
-@I.rx(r'^(core::slice::|std::slice::)?<impl \[T\]>::get$')
+@I.rx(r'^(core::slice::|std::slice::)?<impl \[.*\]>::get$')
 def _slice_get(m, args, ci):
     s, a, b = seq_of(args[0])
     i = args[1]
@@ -171,11 +171,11 @@ def _slice_get(m, args, ci):
         i = m.concretize(i, 0, b - a, 'slice::get')
     return some(Ref(s, a + i)) if 0 <= i < b - a else none()
 
-@I.rx(r'^(core::slice::|std::slice::)?<impl \[T\]>::to_vec$|^(std::slice::)?<impl \[T\]>::to_owned$|^<\[.*\] as ToOwned>::to_owned$')
+@I.rx(r'^(core::slice::|std::slice::)?<impl \[.*\]>::to_vec$|^(std::slice::)?<impl \[.*\]>::to_owned$|^<\[.*\] as ToOwned>::to_owned$')
 def _to_vec(m, args, ci):
     return Seq([clone_value(m, x) for x in elems_of(args[0])], 'vec')
 
-@I.rx(r'^(core::slice::|std::slice::)?<impl \[T\]>::copy_from_slice$')
+@I.rx(r'^(core::slice::|std::slice::)?<impl \[.*\]>::copy_from_slice$')
 def _copy_from_slice(m, args, ci):
     s, a, b = seq_of(args[0])
     src = elems_of(args[1])
@@ -185,12 +185,12 @@ def _copy_from_slice(m, args, ci):
         s.items[a + k] = x
     return unit()
 
-@I.rx(r'^(core::slice::|std::slice::)?<impl \[T\]>::(iter|iter_mut)$|^(std::vec::)?Vec::(iter|iter_mut)$')
+@I.rx(r'^(core::slice::|std::slice::)?<impl \[.*\]>::(iter|iter_mut)$|^(std::vec::)?Vec::(iter|iter_mut)$')
 def _slice_iter(m, args, ci):
     s, a, b = seq_of(args[0])
     return SliceIter(s, a, b, by_ref=True)
 
-@I.rx(r'^(core::slice::|std::slice::)?<impl \[T\]>::(contains)$')
+@I.rx(r'^(core::slice::|std::slice::)?<impl \[.*\]>::(contains)$')
 def _slice_contains(m, args, ci):
     xs = elems_of(args[0])
     needle = deref_val(args[1])
@@ -199,7 +199,7 @@ def _slice_contains(m, args, ci):
             return True
     return False
 
-@I.rx(r'^(core::slice::|std::slice::)?<impl \[T\]>::(split_at|split_at_mut)$')
+@I.rx(r'^(core::slice::|std::slice::)?<impl \[.*\]>::(split_at|split_at_mut)$')
 def _split_at(m, args, ci):
     s, a, b = seq_of(args[0])
     k = args[1]
@@ -237,7 +237,7 @@ def _range_bounds(m, rng, n):
         raise Panic('range end index %d out of range for slice of length %d' % (hi, n))
     return lo, hi
 
-@I.rx(r'^<(std::vec::Vec|Vec|\[.*\]|std::string::String|String|str|bytes::Bytes|Bytes|bytes::BytesMut|BytesMut) as (Index|IndexMut)(<.*>)?>::(index|index_mut)$')
+@I.rx(r'^<(std::vec::Vec|Vec|\[.*\]|std::string::String|String|str|bytes::Bytes|Bytes|bytes::BytesMut|BytesMut) as (std::ops::)?(Index|IndexMut)>::(index|index_mut)$')
 def _index(m, args, ci):
     s, a, b = seq_of(args[0])
     idx = args[1]
@@ -287,7 +287,7 @@ def value_eq(m, a, b):
         return a.what == b.what and a.payload == b.payload
     raise Unsupported('value_eq on %r and %r' % (a, b))
 
-@I.rx(r'^<.* as PartialEq(<.*>)?>::(eq|ne)$')
+@I.rx(r'^<.* as PartialEq>::(eq|ne)$')
 def _partial_eq(m, args, ci):
     b = m.prog.resolve_fn(ci.raw)
     if b is not None:
@@ -651,7 +651,7 @@ def _iterator(m, args, ci):
 # ----------------------------------------------------------------------------
 # closures: Fn* traits
 # ----------------------------------------------------------------------------
-@I.rx(r'^<.* as (FnOnce|FnMut|Fn)<.*>>::(call_once|call_mut|call)$|^<.* as (FnOnce|FnMut|Fn)>::(call_once|call_mut|call)$')
+@I.rx(r'^<.* as (FnOnce|FnMut|Fn)>::(call_once|call_mut|call)$')
 def _fn_call(m, args, ci):
     f = args[0]
     tup = args[1]
@@ -671,12 +671,12 @@ def _fn_call(m, args, ci):
 def _string_new(m, args, ci):
     return Seq([], 'str')
 
-@I.rx(r'^<(std::string::)?String as From<&str>>::from$|^<str as ToString>::to_string$|^<str as ToOwned>::to_owned$|^<&str as Into<(std::string::)?String>>::into$|^(core::str::|std::str::)?<impl str>::(to_string|to_owned)$|^<(std::string::)?String as From<&(std::string::)?String>>::from$')
+@I.rx(r'^<(std::string::)?String as From>::from$|^<str as ToString>::to_string$|^<str as ToOwned>::to_owned$|^<&str as Into>::into$|^(core::str::|std::str::)?<impl str>::(to_string|to_owned)$')
 def _string_from_str(m, args, ci):
     s, a, b = seq_of(args[0])
     return Seq(s.items[a:b], 'str', s.tag)
 
-@I.rx(r'^(std::string::)?String::(as_str|as_bytes|as_mut_str)$|^<(std::string::)?String as (Deref|AsRef<str>|AsRef<\[u8\]>|AsRef|Borrow<str>)>::(deref|as_ref|borrow)$|^(core::str::|std::str::)?<impl str>::as_bytes$|^<str as AsRef<\[u8\]>>::as_ref$|^<str as AsRef<str>>::as_ref$|^<&str as AsRef<str>>::as_ref$|^<\[u8\] as AsRef<\[u8\]>>::as_ref$|^<&\[u8\] as AsRef<\[u8\]>>::as_ref$|^<(std::vec::)?Vec as AsRef<\[u8\]>>::as_ref$')
+@I.rx(r'^(std::string::)?String::(as_str|as_bytes|as_mut_str)$|^<(std::string::)?String as (Deref|AsRef|Borrow)>::(deref|as_ref|borrow)$|^(core::str::|std::str::)?<impl str>::as_bytes$|^<&?str as AsRef>::as_ref$|^<&?\[u8\] as AsRef>::as_ref$|^<(std::vec::)?Vec as AsRef>::as_ref$')
 def _as_slice(m, args, ci):
     v = args[0]
     if isinstance(v, Ref) and isinstance(v.get(), Slice):
@@ -775,13 +775,13 @@ def _string_from_utf8(m, args, ci):
 # ----------------------------------------------------------------------------
 # fmt / anyhow / errors  (opaque)
 # ----------------------------------------------------------------------------
-@I.rx(r'^(core|std)::fmt::(rt::)?Arguments(<.*>)?::(new_const|new_v1|new_v1_formatted|new|from_str|from_str_nonconst)$|^(core|std)::fmt::(rt::)?Arguments::as_str$')
+@I.rx(r'(^|::)Arguments::(new_const|new_v1|new_v1_formatted|new|from_str|from_str_nonconst|as_str)$')
 def _fmt_args(m, args, ci):
     if ci.name.endswith('as_str'):
         return none()
     return Opaque('fmt::Arguments', None)
 
-@I.rx(r'^(core|std)::fmt::(rt::)?Argument(<.*>)?::(new_display|new_debug|new_lower_hex|new_upper_hex|new)$')
+@I.rx(r'(^|::)Argument::(new_display|new_debug|new_lower_hex|new_upper_hex|new)$')
 def _fmt_arg(m, args, ci):
     return Opaque('fmt::Argument', None)
 
@@ -802,7 +802,7 @@ def repr_token(v):
         return v
     return repr(v)[:80]
 
-@I.rx(r'^anyhow::__private::(format_err|must_use)$|^anyhow::Error::msg$|^anyhow::error::<impl anyhow::Error>::msg$|^anyhow::Error::(new|from)$|^anyhow::error::<impl From<E> for anyhow::Error>::from$|^<anyhow::Error as From<.*>>::from$')
+@I.rx(r'^(anyhow::__private::)?(format_err|must_use)$|^anyhow::Error::msg$|^anyhow::error::<impl anyhow::Error>::msg$|^anyhow::Error::(new|from)$|^anyhow::error::<impl From<E> for anyhow::Error>::from$|^<anyhow::Error as From<.*>>::from$')
 def _anyhow_new(m, args, ci):
     if ci.name.endswith('must_use'):
         return args[0]
@@ -816,7 +816,7 @@ def _anyhow_kind(m, args, ci):
         return Opaque('anyhow_kind')
     return Opaque('anyhow', args[1] if len(args) > 1 else None)
 
-@I.rx(r'^<(std::result::)?Result as anyhow::Context(<.*>)?>::(context|with_context)$|^<(std::option::)?Option as anyhow::Context(<.*>)?>::(context|with_context)$')
+@I.rx(r'^<(std::result::)?Result as (anyhow::)?Context>::(context|with_context)$|^<(std::option::)?Option as (anyhow::)?Context>::(context|with_context)$')
 def _anyhow_context(m, args, ci):
     v = args[0]
     if isinstance(v, Adt) and v.variant == 'Ok':
